@@ -14,7 +14,7 @@ Two routes, both through the real command line:
           every Processor subclass is wrapped and Abs(system) recorded after each stage; the files written by that run are
           judged as on the cli route.
 Presentations: atoms re-ordered within their residues (`permute`), hydrogens renamed to fresh names in file order (`renameH`) or in
-shuffled order (`renameHs`), the names of the hydrogens on one heavy atom permuted (`swapH`), all hydrogen names of a residue
+shuffled order (`renameHs`), the names of the hydrogens on one heavy atom permuted (`swapH`, `revH` = reversed), all hydrogen names of a residue
 permuted (`scrambleH`, only together with `-bonds-from distance`: with name-based bonds a name that belongs to another hydrogen
 states another chemistry), the structure rotated by a lattice rotation and translated (`motion`, exact on the 0.001 A grid of the
 PDB format), combinations, a different PYTHONHASHSEED.  Chain and residue order are kept.
@@ -67,7 +67,7 @@ OPTION_SETS = {
 ROTATIONS = [((1, 2, 3), (1, 1, 1)), ((2, 1, 3), (-1, 1, 1)), ((3, 1, 2), (1, 1, 1)), ((1, 3, 2), (1, -1, 1)), ((2, 3, 1), (1, 1, 1)),
              ((1, 2, 3), (-1, -1, 1))]
 IDENT = c11_stages.IDENT
-H_KINDS = ('renameH', 'renameHs', 'swapH', 'scrambleH')
+H_KINDS = ('renameH', 'renameHs', 'swapH', 'revH', 'scrambleH')
 
 
 # ------------------------------------------------------------------------------------------------------- presentations
@@ -128,7 +128,7 @@ def transform(text, kind, rng):
             rng.shuffle(new)
             for i, l in zip(grp, new):
                 out[i] = l
-        return '\n'.join(l for l in out if not l.startswith('CONECT')) + '\n', motion
+        return '\n'.join(out) + '\n', motion      # CONECT records refer to serial numbers, which travel with their atoms
     if kind == 'renameH':
         n = 0
         for i in atom_idx:
@@ -136,7 +136,7 @@ def transform(text, kind, rng):
                 n += 1
                 out[i] = _setname(lines[i], 'H%d' % (n % 90 + 10))
         return '\n'.join(out) + '\n', motion
-    if kind in ('renameHs', 'swapH', 'scrambleH'):
+    if kind in ('renameHs', 'swapH', 'revH', 'scrambleH'):
         for grp in _residue_groups(lines):
             hyd = [i for i in grp if _element(lines[i]) == 'H']
             if kind == 'renameHs':
@@ -153,7 +153,11 @@ def transform(text, kind, rng):
                     sets.append((sub, [lines[i][12:16] for i in sub]))
             for idx, names in sets:
                 names = list(names)
-                rng.shuffle(names)
+                if kind == 'revH':       # the hydrogens on one heavy atom exchange their names so that the name order is reversed
+                    idx = sorted(idx, key=lambda i: lines[i][12:16])
+                    names = sorted(names, reverse=True)
+                else:
+                    rng.shuffle(names)
                 for i, nm in zip(idx, names):
                     out[i] = _setname(lines[i], nm)
         return '\n'.join(out) + '\n', motion
@@ -196,6 +200,24 @@ def nh3_termini(text):
                 out.append([chain.strip(), int(l[22:26]), l[26].strip()])
         prev_chain, first = chain, False
     return out
+
+
+def interchain_conect(text):
+    """True iff a CONECT record joins atoms of two TER-separated sections (the reader merges the two molecules)."""
+    seg, where, found = 0, {}, False
+    for l in text.splitlines():
+        if l.startswith(('ATOM', 'HETATM')):
+            try:
+                where[int(l[6:11])] = seg
+            except ValueError:
+                pass
+        elif l.startswith(('TER', 'ENDMDL')):
+            seg += 1
+        elif l.startswith('CONECT'):
+            ids = [int(l[i:i + 5]) for i in range(6, len(l.rstrip()), 5) if l[i:i + 5].strip()]
+            segs = {where[i] for i in ids if i in where}
+            found = found or len(segs) > 1
+    return found
 
 
 def n_protein_residues(text):
@@ -291,6 +313,8 @@ def execute(jobs, costs):
     if not jobs:
         return []
     order = sorted(range(len(jobs)), key=lambda i: -costs[i])
+    if any(j[0] == 'stages' for j in jobs):
+        c11_stages.preload()
     ctx = mp.get_context('fork')
     with ctx.Pool(min(tlc.NCPU, len(jobs)), maxtasksperchild=1) as pool:
         res = pool.map(_job, [jobs[i] for i in order], chunksize=1)
@@ -303,38 +327,45 @@ def execute(jobs, costs):
 # ------------------------------------------------------------------------------------------------------------ planning
 def pair_specs(tier, seed):
     """[(input, option set, [kinds on the cli route], [kinds on the stages route])]"""
+    if os.environ.get('C11_PLAN'):           # debugging / mutation testing: an explicit plan
+        import json
+        return [tuple(x) for x in json.loads(os.environ['C11_PLAN'])]
     if tier == 'quick':
         return [
             ('dipro', 'default', ['permute', 'hashseed'], ['permute+renameHs+motion', 'swapH']),
             ('trpcage', 'elastic', ['renameH', 'hashseed'], ['permute', 'renameHs', 'permute+renameHs+motion']),
-            ('dipro', 'm22-scfix', ['motion', 'hashseed'], []),
-            ('trpcage', 'nt', ['permute', 'hashseed'], ['permute+renameHs+motion']),
+            ('dipro', 'm22-scfix', ['motion'], ['permute+swapH+motion']),
+            ('trpcage', 'nt', ['permute', 'hashseed', 'hashseed', 'hashseed'], ['permute+renameHs+motion', 'revH']),
             ('betasheet', 'posres', ['renameH', 'hashseed'], ['swapH', 'permute+motion']),
-            ('helix', 'nt-m22', ['motion', 'hashseed'], []),
+            ('helix', 'nt-m22', ['hashseed'], []),
             ('trpcage', 'dist-bonds', [], ['scrambleH', 'scrambleH+permute+motion']),
             ('trpcage', 'ss-explicit', [], ['permute+renameHs+motion']),
             ('betasheet', 'cys-thr', [], ['motion', 'permute+renameHs+motion']),
-            ('trpcage', 'elastic-thr', [], ['motion', 'permute+renameHs+motion']),
-        ]
+        ]       # the elastic-thr family needs a probe run first (second wave): thorough tier only
     out = []
     t0 = ('dipro', 'trpcage', 'betasheet', 'helix')
     for inp in t0:
         for opt in ('default', 'elastic', 'posres', 'm22-scfix', 'elnedyn', 'ss', 'cys', 'nt', 'nt-m22'):
-            out.append((inp, opt, ['permute', 'renameH', 'motion', 'hashseed', 'hashseed', 'permute+motion'],
-                        ['permute', 'renameHs', 'swapH', 'motion', 'permute+renameHs+motion']))
+            nt = ['revH'] if opt.startswith('nt') else []
+            out.append((inp, opt, ['permute', 'renameH+motion', 'hashseed'] + nt,
+                        ['permute', 'swapH', 'renameHs+motion', 'permute+renameHs+motion'] + nt))
         for opt in ('elastic-chain', 'posres-all', 'cys03', 'ss-explicit'):
-            out.append((inp, opt, ['hashseed'], ['permute', 'renameHs', 'permute+renameHs+motion', 'permute+swapH+motion']))
+            out.append((inp, opt, ['hashseed'] if opt in ('elastic-chain', 'cys03') else [],
+                        ['permute', 'renameHs', 'permute+renameHs+motion', 'permute+swapH+motion']))
         out.append((inp, 'dist-bonds', ['hashseed'], ['scrambleH', 'scrambleH+permute', 'scrambleH+permute+motion']))
         if inp != 'dipro':
             out.append((inp, 'elastic-thr', [], ['motion', 'permute+motion', 'permute+renameHs+motion', 'motion']))
     out.append(('betasheet', 'cys-thr', [], ['motion', 'permute+motion', 'permute+renameHs+motion', 'motion']))
-    for inp in ('1UBQ', '3i40', 'lysozyme'):
+    for inp in ('1UBQ', '3i40'):
         for opt in ('default', 'elastic-chain', 'posres-all', 'cys03', 'nt', 'ss-explicit', 'elnedyn'):
-            out.append((inp, opt, ['hashseed'], ['permute', 'motion', 'permute+motion']))
+            out.append((inp, opt, ['hashseed'] if opt in ('default', 'elastic-chain', 'nt', 'elnedyn') or inp == '3i40' else [],
+                        ['permute', 'permute+motion'] if inp == '1UBQ' else ['permute', 'motion', 'permute+motion']))
         out.append((inp, 'elastic-thr', [], ['motion', 'permute+motion']))
+    for opt in ('elastic-chain', 'cys03', 'nt'):
+        out.append(('lysozyme', opt, ['hashseed'] if opt == 'elastic-chain' else [], ['permute+motion']))
     out.append(('3i40', 'cys-thr', [], ['motion', 'permute+motion', 'motion']))
     out.append(('lysozyme', 'cys-thr', [], ['motion', 'permute+motion']))
-    for opt in ('elastic-chain', 'posres-all', 'cys03', 'nt'):
+    for opt in ('elastic-chain', 'cys03', 'nt'):
         out.append(('6LFO_gap', opt, ['hashseed'] if opt == 'elastic-chain' else [], ['permute+motion']))
     return out
 
@@ -343,7 +374,8 @@ class Pair:
     def __init__(self, route, inp, opt, kinds, n, seed):
         self.route, self.inp, self.opt, self.kinds, self.n = route, inp, opt, kinds, n
         self.tseed = '%s/%s/%s/%s/%d' % (seed, inp, opt, kinds, n)
-        self.hs = random.Random(self.tseed).choice([1, 2, 3, 7]) if kinds == 'hashseed' else 0
+        # several hashseed pairs of one spec use different seeds: set-iteration order is a lottery, more tickets see more orders
+        self.hs = [1, 2, 3, 7, 11, 13][(n + random.Random('%s/%s/%s' % (seed, inp, opt)).randrange(6)) % 6] if kinds == 'hashseed' else 0
         self.base = self.two = None     # indices into the job list
         self.motion = dict(IDENT)
         self.options = None
@@ -354,11 +386,11 @@ class Pair:
     def scenario(self, verdict, r1, r2, nh3):
         return {'what': self.what(), 'route': self.route, 'input': self.inp, 'option_set': self.opt, 'options': self.options,
                 'kinds': self.kinds, 'hashseed': self.hs, 'tseed': self.tseed, 'motion': self.motion, 'verdict': verdict,
-                'nh3_termini': nh3, 'stderr_two': (r2.get('stderr') or '')[-300:],
+                'nh3_termini': nh3, 'interchain_conect': interchain_conect(open(INPUTS[self.inp]).read()), 'stderr_two': (r2.get('stderr') or '')[-300:],
                 'particles': [len((r1.get('files') or r1)['top']), len((r2.get('files') or r2)['top'])]}
 
 
-# ------------------------------------------------------------------------------------------------- known finding D18
+# ------------------------------------------------------------------------------------- known finding C11-nt-nh3
 def _is_nt_nh3(kind, sc):
     """-nt (NH2-ter) on a chain that starts with an NH3+ group: which of the three equivalent hydrogens is dropped follows the
     NAME ORDER of the hydrogens, so renaming them moves the N-terminal backbone bead (and parameters computed from it)."""
@@ -368,7 +400,7 @@ def _is_nt_nh3(kind, sc):
         return False
     v = sc.get('verdict', {})
     if sc.get('route') == 'stages':
-        if not (v.get('st') == 'differs' and str(v.get('name', '')).startswith('CanonicalizeModifications')
+        if not (v.get('st') == 'differs' and v.get('files') != 'ok' and str(v.get('name', '')).startswith(('RepairGraph', 'CanonicalizeModifications'))
                 and v.get('how') == 'coordinates not following the motion'):
             return False
         w = v.get('where') or []
@@ -381,7 +413,7 @@ def _is_nt_nh3(kind, sc):
         and all(1 in atoms for atoms in w.get('inters', []))
 
 
-SIGNATURES = {'D18': _is_nt_nh3, 'C11-nt-nh3': _is_nt_nh3}
+SIGNATURES = {'C11-nt-nh3': _is_nt_nh3}
 
 
 # --------------------------------------------------------------------------------------------------------------- judge
@@ -520,17 +552,16 @@ def run(tier, seed, ev, vd):
         ps = [Pair('cli', inp, opt, k, n, seed) for n, k in enumerate(ck)] + [Pair('stages', inp, opt, k, n, seed) for n, k in enumerate(sk)]
         pending.append((inp, opt, ps))
     all_pairs, all_jobs, all_res = [], [], []
+    import time
+    t_start = time.time()
     for phase in (1, 2):
         jobs, costs, todo = [], [], []
         for inp, opt, ps in pending:
-            options = options_for(inp, opt, texts[inp], probes)
-            if (options is None) != (phase == 2 and '@EU' in OPTION_SETS[opt]) and phase == 1:
-                if options is None:
-                    continue
-            if options is None:
-                raise tlc.MachineryError('no probe for %s/%s' % (inp, opt))
-            if phase == 2 and '@EU' not in OPTION_SETS[opt]:
+            if ('@EU' in OPTION_SETS[opt]) != (phase == 2):
                 continue
+            options = options_for(inp, opt, texts[inp], probes)
+            if options is None:
+                raise tlc.MachineryError('no generated option value for %s/%s' % (inp, opt))
             base = {}
             for p in ps:
                 p.options = options
@@ -554,29 +585,23 @@ def run(tier, seed, ev, vd):
                 costs.append(_COST[inp])
                 p.two = len(all_jobs) + len(jobs) - 1
                 todo.append(p)
+        if phase == 1:
+            # probe runs: the longest pair distance below the cut-off of an ordinary elastic run becomes the cut-off of 'elastic-thr'
+            need = sorted({inp for inp, opt, _ in pending if '@EU' in OPTION_SETS[opt]})
+            for inp in need:
+                jobs.append(('stages', (texts[inp], options_for(inp, 'elastic', texts[inp], probes), dict(IDENT), 'probe/%s' % inp, _SCRATCH)))
+                costs.append(_COST[inp])
         res = execute(jobs, costs)
+        if phase == 1:
+            for inp, r in zip(need, res[len(res) - len(need):]):
+                probes[inp] = (r.get('probe') or {}).get('elastic')
+                if probes[inp] is None:
+                    raise tlc.MachineryError('probe run for %s gave no elastic pair: %s %s' % (inp, r.get('stderr'), r.get('harness_error')))
         all_jobs += jobs
         all_res += res
         all_pairs += todo
-        if phase == 1:
-            # the longest elastic bond of a base run of the 'elastic' family gives the on-threshold cut-off of 'elastic-thr'
-            need = sorted({inp for inp, opt, _ in pending if '@EU' in OPTION_SETS[opt]})
-            pj = [('stages', (texts[inp], options_for(inp, 'elastic', texts[inp], probes), dict(IDENT), 'probe', _SCRATCH)) for inp in need]
-            have = {}
-            for inp, opt, ps in pending:
-                if opt == 'elastic' and inp in need:
-                    for p in ps:
-                        if p.route == 'stages':
-                            have[inp] = all_res[p.base]
-            missing = [inp for inp in need if inp not in have]
-            extra = execute([pj[need.index(inp)] for inp in missing], [_COST[inp] for inp in missing])
-            for inp, r in zip(missing, extra):
-                have[inp] = r
-            for inp in need:
-                probes[inp] = _longest_elastic(have[inp])
-                if probes[inp] is None:
-                    raise tlc.MachineryError('probe run for %s gave no elastic bond: %s' % (inp, have[inp].get('stderr')))
     ev.extra['martinize2_runs'] = len(all_jobs)
+    ev.extra['wall_runs_s'] = round(time.time() - t_start, 1)
 
     for r in all_res:
         if r.get('harness_error'):
@@ -592,23 +617,8 @@ def run(tier, seed, ev, vd):
     report(cli_pairs, cli_v, group_list, stage_v, all_res, nh3, ev, vd)
 
 
-def _longest_elastic(r):
-    """repr of the exact length (nm, from the final coordinates' integer grid is NOT enough: taken from the recorded
-    interaction parameters would be rounded too) - so the worker's final bead positions are not used; instead the
-    cut-off is set to the rounded length of the longest rubber band, which the elastic-thr base run then meets again."""
-    best = None
-    if not r.get('ok') or not r['inters']:
-        return None
-    for it in r['inters'][-1]:
-        if it[0] == 'bonds' and 'Rubber band' in it[3] and len(it[2]) >= 2 and it[2][1][0] == 'n':
-            v = it[2][1][2]
-            if best is None or v > best:
-                best = v
-    return None if best is None else repr(best / 10000.0)
-
-
 def report(cli_pairs, cli_v, group_list, stage_v, all_res, nh3, ev, vd):
-    admissible, on_thr = [], 0
+    admissible, transient, on_thr, on_thr_list = [], [], 0, []
     stage_names = set()
     first = True
     for i, p in enumerate(cli_pairs):
@@ -645,29 +655,45 @@ def report(cli_pairs, cli_v, group_list, stage_v, all_res, nh3, ev, vd):
                 ev.nontrivial_case(p.what())
             thr = _thr_items(r1, r2)
             on_thr += 1 if thr else 0
+            if thr and len(on_thr_list) < 40:
+                on_thr_list.append({'what': p.what(), 'items': [[t['kind'], t['ka'], t['kb']] for t in thr][:4]})
+            brief = {k: v.get(k) for k in ('st', 'stage', 'name', 'how', 'pstage', 'nbad', 'adm', 'files')}
             good = v['st'] == 'ok' and v.get('files') in ('ok', 'ok-admissible')
             if good and (v.get('adm', 0) > 0 or v.get('files') == 'ok-admissible'):
                 admissible.append({'what': p.what(), 'options': p.options, 'differences_admitted_over_all_stages': v.get('adm', 0),
                                    'files': v.get('files'), 'items_on_threshold': [dict(t, d=x['d'], t=x['t']) for t in thr
                                                                                   for x in (r1['thr'] + r2['thr'])
                                                                                   if all(x[k] == t[k] for k in ('kind', 'ka', 'kb'))][:6]})
+            if good and v.get('nbad', 0) > 0:
+                transient.append({'what': p.what(), 'verdict': brief})
             if not good:
                 sc = p.scenario(v, r1, r2, nh3[p.inp])
-                if v['st'] == 'ok':
-                    sc['verdict']['cliwhere'] = _cliwhere(r1['files'], r2['files'], p.motion) if r2['ok'] else {}
-                    sc['first_beads'] = _first_beads(r1['files'])
-                where = '%s: first difference after stage %s %s: %s' % (p.what(), v.get('stage'), v.get('name'), v.get('how')) \
-                    if v['st'] == 'differs' else '%s: %s / files %s' % (p.what(), v['st'], v.get('files'))
+                if r2['ok']:
+                    sc['verdict']['cliwhere'] = _cliwhere(r1['files'], r2['files'], p.motion)
+                sc['first_beads'] = _first_beads(r1['files'])
+                if v.get('stage'):
+                    where = '%s: first difference after stage %s %s: %s (differs without interruption from stage %s on; files: %s)' % (
+                        p.what(), v.get('stage'), v.get('name'), v.get('how'), v.get('pstage'), v.get('files'))
+                else:
+                    where = '%s: %s / files %s' % (p.what(), v['st'], v.get('files'))
                 vd.violation('stage-differs' if v['st'] == 'differs' else 'trace-rejected', sc,
                              where + ' ' + repr(v.get('where'))[:300] + ' ' + (r2.get('stderr') or '')[-200:])
             if first:
                 ev.sample({'kind': 'pair of in-process entry() runs recorded after every Processor.run_system, judged by TLC',
-                           'what': p.what(), 'stages': r1['names'], 'verdict': {k: v.get(k) for k in ('st', 'stage', 'name', 'how', 'adm', 'files')}})
+                           'what': p.what(), 'stages': r1['names'], 'verdict': brief})
                 first = False
     ev.extra['stage_processors_observed'] = sorted(stage_names)
     ev.extra['pairs_with_an_item_on_a_threshold'] = on_thr
+    ev.extra['pairs_with_an_item_on_a_threshold_list'] = on_thr_list
     ev.extra['pairs_differing_only_by_items_on_a_threshold'] = admissible
-    if group_list and on_thr == 0:
+    ev.extra['pairs_with_a_transient_difference_and_equal_output'] = transient[:40]
+    ev.extra['pairs_with_a_transient_difference_count'] = len(transient)
+    if group_list and not os.environ.get('C11_PLAN'):
+        missing = {'PDBInput', 'MakeBonds', 'RepairGraph', 'CanonicalizeModifications', 'DoMapping', 'DoAverageBead', 'DoLinks',
+                   'ApplyRubberBand', 'SortMoleculeAtoms'} - stage_names
+        if missing:
+            raise tlc.MachineryError('stages never observed: %s' % sorted(missing))
+    if group_list and on_thr == 0 and not os.environ.get('C11_PLAN'):
         raise tlc.MachineryError('no pair with an item on a geometric threshold: the admissible-difference rule was not exercised')
 
 
@@ -777,12 +803,15 @@ def selftest(seed):
     expect_stage = {'atoms': i_map, 'coordinates': i_avg, 'partition': i_mb, 'bonds': i_mb, 'interactions': i_rb}
     for k, (label, _, how) in enumerate(cases):
         v = _tidy(stage_v[(0, k)])
-        brief = {x: v.get(x) for x in ('st', 'stage', 'name', 'how', 'adm', 'files')}
+        brief = {x: v.get(x) for x in ('st', 'stage', 'name', 'how', 'pstage', 'nbad', 'adm', 'files')}
         if how == 'ok':
-            assert v['st'] == 'ok' and v['adm'] == 0 and v['files'] == 'ok', brief
+            assert v['st'] == 'ok' and v['adm'] == 0 and v['nbad'] == 0 and v['files'] == 'ok', brief
         elif how == 'admitted':
-            assert v['st'] == 'ok' and v['adm'] == 1 and v['files'] == 'ok-admissible', brief
+            assert v['st'] == 'ok' and v['adm'] == 1 and v['nbad'] == 0 and v['files'] == 'ok-admissible', brief
+        elif label in ('partition', 'bonds'):
+            # RepairGraph rebuilds these tables: the tampering is localised, but it does not reach the output (transient)
+            assert v['st'] == 'ok' and v['nbad'] >= 1 and v['how'] == how and v['stage'] == expect_stage[label] + 1, (label, brief)
         else:
-            assert v['st'] == 'differs' and v['how'] == how and v['stage'] == expect_stage[label] + 1, (label, brief)
+            assert v['st'] == 'differs' and v['how'] == how and v['stage'] == expect_stage[label] + 1 == v['pstage'], (label, brief)
         print('selftest C11: %-34s -> %s' % (label, brief))
     return 0
